@@ -130,7 +130,32 @@ def run(p: Program, rep: Report, tier: str) -> None:
         else:
             rep.violation("R18.2", construct(build, text=f"default port of {ast.unparse(tables[0].slice)}"), where(build, tables[0]), "the default port is not looked up for the URL's own scheme")
     else:
-        rep.undecide("R18.2", "default-port table not found")
+        # no table: the default port may be COMPUTED from the scheme (`443 if scheme.endswith("s") else 80`, a chain of
+        # comparisons ...): the expression is evaluated for the four schemes a gateway can hand over
+        cands = []
+        for f_u in b_unit:
+            for n in ast.walk(f_u.node):
+                if isinstance(n, ast.Assign) and len(n.targets) == 1 and isinstance(n.targets[0], ast.Name) and "port" in n.targets[0].id.lower() \
+                        and any(isinstance(x, ast.Name) and x.id == "scheme" for x in ast.walk(n.value)) and not isinstance(n.value, ast.Subscript):
+                    cands.append((f_u, n, n.value))
+        if len(cands) == 1:
+            f_u, n, e_ = cands[0]
+            got = {}
+            try:
+                for sc_ in ("http", "https", "ws", "wss"):
+                    got[sc_] = F.fold(f_u.module, e_, {"scheme": sc_})
+            except NotConst as ex_:
+                got = None
+                rep.undecide("R18.2", f"the default port is computed by `{ast.unparse(e_)[:60]}`, which is not evaluable for the known schemes ({ex_})")
+            if got is not None:
+                if got == {"http": 80, "https": 443, "ws": 80, "wss": 443}:
+                    rep.ok("R18.2", f"the computed default port `{ast.unparse(e_)[:50]}` is 80/443/80/443 for http/https/ws/wss")
+                else:
+                    bad_ = {k: v for k, v in got.items() if v != {"http": 80, "https": 443, "ws": 80, "wss": 443}[k]}
+                    rep.violation("R18.2", construct(build, text=f"default ports {got}"), where(f_u, n),
+                                  f"the default port computed by `{ast.unparse(e_)[:50]}` is wrong for {bad_}: a URL of that scheme on its real default port keeps the port (and loses it on the other one)")
+        else:
+            rep.undecide("R18.2", "default-port table not found")
     # precedence of the Host header over the server address, as a statement about paths (not about which `if` is written first):
     # every returning path on which the header is known present builds the URL from it and not from the server pair
     host_paths = [pa for pa in paths if pa.exit == "return" and (("cmp", "Is", HOST, NONE), False) in pa.facts]
